@@ -92,6 +92,11 @@ def _scn(draw):
             unique_by=lambda f: f["name"],
         )
     )
+    if draw(st.integers(0, 3)) == 0:
+        y, k = draw(st.integers(1985, 2036)), draw(st.integers(1, 3599))
+        for idx in (0, 1):
+            files.append({"name": "fold %d first pass.mov" % idx, "size": 2, "mtime": 1000000000, "frac": 0, "near_now_days": None, "near_switch": {"year": y, "idx": idx, "delta": -k}})
+            files.append({"name": "fold %d second pass.mov" % idx, "size": 2, "mtime": 1000000000, "frac": 0, "near_now_days": None, "near_switch": {"year": y, "idx": idx, "delta": 3600 - k}})
     return {"tz": draw(_tz()), "files": files, "formats": draw(gen.formats(2)), "sub": draw(st.booleans()),
             "flatten_tz": draw(st.sampled_from([None, None, "UTC", "Europe/Berlin", "America/Los_Angeles", "Asia/Kolkata", "Australia/Sydney", "<-0330>3:30"]))}
 
@@ -112,6 +117,11 @@ def enumerated(tier):
             {"name": "switch a.mov", "size": 1, "mtime": 1000000000, "frac": 0, "near_now_days": None, "near_switch": {"year": y, "idx": 0, "delta": 1800}},
             {"name": "switch b.mov", "size": 1, "mtime": 1000000000, "frac": 0, "near_now_days": None, "near_switch": {"year": y, "idx": 1, "delta": 1800}},
             {"name": "switch c.mov", "size": 1, "mtime": 1000000000, "frac": 0, "near_now_days": None, "near_switch": {"year": y, "idx": 1, "delta": -1}},
+            # the same wall-clock reading in both passes of the repeated hour (whichever of the two switches falls back)
+            {"name": "fold 0 a.mov", "size": 1, "mtime": 1000000000, "frac": 0, "near_now_days": None, "near_switch": {"year": y, "idx": 0, "delta": -1200}},
+            {"name": "fold 0 b.mov", "size": 1, "mtime": 1000000000, "frac": 0, "near_now_days": None, "near_switch": {"year": y, "idx": 0, "delta": 2400}},
+            {"name": "fold 1 a.mov", "size": 1, "mtime": 1000000000, "frac": 0, "near_now_days": None, "near_switch": {"year": y, "idx": 1, "delta": -1200}},
+            {"name": "fold 1 b.mov", "size": 1, "mtime": 1000000000, "frac": 0, "near_now_days": None, "near_switch": {"year": y, "idx": 1, "delta": 2400}},
         ]
         yield {"tz": {"kind": "iana", "tz": z}, "files": files, "formats": ["md5"], "sub": False}
 
